@@ -134,6 +134,24 @@ def run(res, f, tier):
     adj = [[] for _ in range(n)]
     for a, b, k in m["edges"]:
         adj[a].append(b)
+    # dynamic dispatch: a call of `<dyn Tr>::m` can land in every implementation of Tr::m that was put behind a `dyn Tr`
+    # somewhere (the `vtable` edges of the unsizing coercions).  Only the trait-object types that range over tree nodes
+    # are closed this way (`Box<dyn Iterator<Item = &mut Expr>>` re-wrapped around itself once per node): std's own
+    # dyn recursion (fmt) is bounded by construction and already represented through the formatter's function pointers.
+    vt_targets = {}
+    for a, b, k in m["edges"]:
+        if k == "vtable":
+            mname = nodes[b]["path"].split("::")[-1]
+            vt_targets.setdefault(mname, set()).add(b)
+    virtual_edges = 0
+    for i, nd in enumerate(nodes):
+        if nd.get("kind") == "Virtual" and TREE.search(nd["s"]) and " as std::fmt::" not in nd["s"]:
+            mname = nd["path"].split("::")[-1]
+            mtr = re.search(r"<dyn ([\w:]+)", nd["s"])
+            for b in vt_targets.get(mname, ()):
+                if mtr and (" as %s" % mtr.group(1)) in nodes[b]["s"] and TREE.search(nodes[b]["s"]) and not nodes[b]["s"].startswith("<dyn "):
+                    adj[i].append(b)
+                    virtual_edges += 1
     comps = sccs_of(n, adj)
     cycles = [c for c in comps if len(c) > 1 or c[0] in adj[c[0]]]
     relevant = []
@@ -148,6 +166,10 @@ def run(res, f, tier):
             relevant.append((c, local, drops))
         elif drops:
             relevant.append((c, local, drops))
+        elif any(nodes[i].get("kind") == "Virtual" and TREE.search(nodes[i]["s"]) for i in c):
+            # no crate-local member, but a trait object over tree nodes that can wrap itself (adaptors boxed as `dyn`
+            # around a boxed `dyn` of the same trait): the nesting, and with it the recursion, grows with the input
+            relevant.append((c, ["dyn:" + sorted(nodes[i]["s"] for i in c if nodes[i].get("kind") == "Virtual")[0][:120]], drops))
     # mandatory anchors: the operations the property names must be in the graph at all
     names = set(x["path"] for x in nodes)
     for tr_, me_ in (("std::clone::Clone", "clone"), ("std::cmp::PartialEq", "eq"), ("std::fmt::Display", "fmt"), ("std::fmt::Debug", "fmt")):
